@@ -150,12 +150,63 @@ package dials
 // heap component at the time of the call, res0 / res1 = results.
 // ---------------------------------------------------------------------------------------------
 
-//@ func dials.compose(t, sources) (r, err)
+//@ macro cfgType(t Iface) RType = elem(typeOfDyn(dyn(t)))
+//@ macro isCfgPtr(t Iface) bool = t != nil && pay(t) != nil && kind(typeOfDyn(dyn(t))) == Ptr && kind(cfgType(t)) == Struct
+// a source value fits the config type T when it is (a non-nil pointer to) a struct that has one field per
+// retained field of T, in order, with the same names (what ptrify.Pointerify builds)
+//@ macro structFits(P RType, T RType) bool = kind(P) == Struct && numField(P) == retained(T, numField(T))
+//@      && (forall k int :: 0 <= k && k < numField(T) && keeps(T, k) ==> fName(P, retained(T, k)) == fName(T, k))
+//@ macro layerFits(v Val, T RType) bool = valid(v) && ((kind(vtype(v)) == Ptr && !visnil(v) && structFits(elem(vtype(v)), T))
+//@      || (kind(vtype(v)) != Ptr && structFits(vtype(v), T)))
+
+//@ func dials.realDeepCopy(in) (out)
 //@   flag unproved
+//@   flag record realDeepCopy
+//@   ensures in != nil ==> valid(out) && vtype(out) == typeOfDyn(dyn(in)) && canInterface(out)
+//@   ensures in != nil && kind(typeOfDyn(dyn(in))) == Ptr && pay(in) != nil ==> !visnil(out) && vptr(out) != nil && fresh(vptr(out)) && vptr(out) != pay(in)
+//@        && vaddr(vElem(out)) == vptr(out)
+
+//@ func dials.newOverlayer() (o)
+//@   props C01 C02
+//@   safety C16
+//@   ensures o != nil && fresh(o) && o.dc != nil && fresh(o.dc)
+//@ func dials.newDeepCopier() (d)
+//@   props C02
+//@   safety C16
+//@   ensures d != nil && fresh(d)
+
+//@ func dials.(*deepCopier).deepCopyValue(d, v) (out)
+//@   flag unproved
+//@   flag record deepCopyValue
+//@   requires d != nil && valid(v)
+//@   ensures valid(out) && vtype(out) == vtype(v) && canAddr(out) && canSet(out)
+
+//@ func dials.compose(t, sources) (r, err)
+//@   props C01 C02 C05
+//@   safety C16
 //@   flag record compose
 //@   flag record_heap dials.sourceValue.value
+//@   requires C01_defaults_are_a_struct_pointer: isCfgPtr(t)
+//@   requires C01_layers_fit_the_config_type: forall k int :: 0 <= k && k < len(sources) ==> layerFits(sources[k].value, cfgType(t))
+//@   modifies rec_realDeepCopy, rec_deepCopyValue, rec_overlayStruct
+//@   loop 0:
+//@     invariant C01_one_overlay_per_earlier_layer: rec_overlayStruct_cnt == old(rec_overlayStruct_cnt) + rangeidx
+//@          && rec_deepCopyValue_cnt == old(rec_deepCopyValue_cnt) + rangeidx
+//@     invariant C01_C02_layers_in_argument_order_and_copied: forall k int :: 0 <= k && k < rangeidx && k < len(sources) ==>
+//@          rec_overlayStruct_arg1[old(rec_overlayStruct_cnt) + k] == vElem(rec_realDeepCopy_res0[old(rec_realDeepCopy_cnt)])
+//@          && rec_overlayStruct_arg2[old(rec_overlayStruct_cnt) + k] == rec_deepCopyValue_res0[old(rec_deepCopyValue_cnt) + k]
+//@          && rec_deepCopyValue_arg1[old(rec_deepCopyValue_cnt) + k] == ite(kind(vtype(sources[k].value)) == Ptr, vElem(sources[k].value), sources[k].value)
+//@     invariant rec_realDeepCopy_cnt == old(rec_realDeepCopy_cnt) + 1 && rec_realDeepCopy_arg0[old(rec_realDeepCopy_cnt)] == t
 //@   ensures C05_compose_err_nil_result: err != nil ==> r == nil
 //@   ensures C05_compose_type: err == nil ==> dyn(r) == dyn(t) && pay(r) != nil && fresh(pay(r))
+//@   ensures C02_result_is_the_fresh_copy_of_the_defaults: err == nil ==> rec_realDeepCopy_cnt == old(rec_realDeepCopy_cnt) + 1
+//@        && rec_realDeepCopy_arg0[old(rec_realDeepCopy_cnt)] == t && pay(r) == vptr(rec_realDeepCopy_res0[old(rec_realDeepCopy_cnt)]) && pay(r) != pay(t)
+//@   ensures C01_every_layer_overlaid_once_in_order: err == nil ==> rec_overlayStruct_cnt == old(rec_overlayStruct_cnt) + len(sources)
+//@        && (forall k int :: 0 <= k && k < len(sources) ==>
+//@             rec_overlayStruct_arg1[old(rec_overlayStruct_cnt) + k] == vElem(rec_realDeepCopy_res0[old(rec_realDeepCopy_cnt)])
+//@             && rec_overlayStruct_arg2[old(rec_overlayStruct_cnt) + k] == rec_deepCopyValue_res0[old(rec_deepCopyValue_cnt) + k]
+//@             && rec_deepCopyValue_arg1[old(rec_deepCopyValue_cnt) + k] == ite(kind(vtype(sources[k].value)) == Ptr, vElem(sources[k].value), sources[k].value))
+//@   ensures C01_error_stops_at_the_failing_layer: err != nil ==> rec_overlayStruct_cnt <= old(rec_overlayStruct_cnt) + len(sources)
 
 // ---------------------------------------------------------------------------------------------
 // the re-stack path (monitor goroutine only)
@@ -171,6 +222,9 @@ package dials
 //@   flag nonblocking
 //@   requires rely_sole_writer: soleWriter
 //@   requires wfDials(d) && ctx != nil && watchTab != nil
+//@   requires C01_defaults_copy_is_a_struct_pointer: t != nil && kind(elem(typeOfDyn(tid("*T")))) == Struct
+//@   requires C01_all_layers_fit: layerFits(watchTab.value, elem(typeOfDyn(tid("*T"))))
+//@        && (forall k int :: 0 <= k && k < len(sourceValues) ==> layerFits(sourceValues[k].value, elem(typeOfDyn(tid("*T")))))
 //@   requires rely_no_serial_overflow: stored(d).serial < MaxUint64
 //@   requires C07_reply_cap1: watchTab.installed != nil ==> chanOpen(watchTab.installed) && chcap[watchTab.installed] >= 1 && sent[watchTab.installed] == 0
 //@   requires C08_cbch_open: d.cbch != nil ==> !closed[d.cbch]
@@ -178,10 +232,12 @@ package dials
 //@   requires watchTab.installed != d.cbch && watchTab.installed != d.updatesChan && d.cbch != d.updatesChan
 //@   requires C06_announced: cbAnnounced <= stored(d).serial
 //@   modifies atomicval, hist, storetime, evclock, sent, senttime, sentlog_Iface, sentlog_Ref, cbAnnounced, recvd, recvlog_struct{},
-//@            vlogLen, vlogCfg, vlogErr, vlogTime, dials.sourceValue.value, rec_compose, rec_submitEvent
+//@            vlogLen, vlogCfg, vlogErr, vlogTime, dials.sourceValue.value, rec_compose, rec_submitEvent,
+//@            rec_realDeepCopy, rec_deepCopyValue, rec_overlayStruct
 //@   loop 0:
 //@     invariant C05_no_earlier_match: forall k int :: 0 <= k && k < i ==> sourceValues[k].source != watchTab.source
 //@   ensures C08_only_ctx_received: forall c Ref :: {recvd[c]} c != doneChan(ctx) ==> recvd[c] == old(recvd)[c]
+//@   ensures C01_layers_still_fit: forall k int :: 0 <= k && k < len(sourceValues) ==> layerFits(sourceValues[k].value, elem(typeOfDyn(tid("*T"))))
 //@   ensures C05_one_compose: rec_compose_cnt == old(rec_compose_cnt) + 1
 //@   ensures C05_compose_from_pristine: pay(rec_compose_arg0[old(rec_compose_cnt)]) == t && rec_compose_arg1[old(rec_compose_cnt)] == sourceValues
 //@   ensures C05_slot_replaced: forall k int :: 0 <= k && k < len(sourceValues) ==>
@@ -283,11 +339,14 @@ package dials
 //@   requires wfDials(d) && ctx != nil
 //@   requires chanOpen(d.cbch) && chanOpen(d.updatesChan) && d.cbch != d.updatesChan
 //@   requires rely_announced_init: cbAnnounced <= stored(d).serial
+//@   requires C01_defaults_copy_is_a_struct_pointer: t != nil && kind(elem(typeOfDyn(tid("*T")))) == Struct
+//@   requires C01_initial_layers_fit: forall k int :: 0 <= k && k < len(sourceValues) ==> layerFits(sourceValues[k].value, elem(typeOfDyn(tid("*T"))))
 //@   requires wf_chan_types_distinct: monCtl != doneChan(ctx) && watcherChan != doneChan(ctx) && monCtl != watcherChan
 //@   modifies *
 //@   loop 0:
 //@     invariant wfDials(d) && chanOpen(d.cbch) && chanOpen(d.updatesChan) && d.cbch != d.updatesChan
 //@     invariant C06_announced_le_stored: cbAnnounced <= stored(d).serial
+//@     invariant C01_layers_fit: forall k int :: 0 <= k && k < len(sourceValues) ==> layerFits(sourceValues[k].value, elem(typeOfDyn(tid("*T"))))
 //@     invariant C04_C09_skip_only_when_delayed: skipVerify ==> d.params.DelayInitialVerification
 //@     iter_ensures C09_source_error_delivered_iff: isType(watchTab, "*dials.watchErrorReport") ==>
 //@          ((rec_submitEvent_cnt == old(rec_submitEvent_cnt) + 1)
@@ -306,6 +365,7 @@ package dials
 //@   at call d.updateSourceValue:
 //@     assume rely_no_serial_overflow: stored(d).serial < MaxUint64
 //@     assume rely_reply_chan_private: v.installed != d.cbch && v.installed != d.updatesChan
+//@     assume rely_reported_values_fit_the_requested_type: layerFits(v.value, elem(typeOfDyn(tid("*T"))))
 //@   at call d.submitEvent(ctx, &newConfigEvent:
 //@     assert C06_R2_event_is_installed_version: isCfgEv(arg2)
 //@          && cfgEv(arg2).serial == stored(d).serial && cfgEv(arg2).newConfig == stored(d).cfg
@@ -479,7 +539,7 @@ package dials
 // Sources, decoders and watchers are user code: called by contract, they cannot touch the ghost protocol
 // state.  A value is "shaped for" a type when it is a valid value of that type or a pointer to it
 // (compose dereferences pointers).  Calls are recorded in call-history ghosts.
-//@ macro shaped(v Val, t RType) bool = valid(v) && (vtype(v) == t || vtype(v) == ptrTo(t))
+//@ macro shaped(v Val, t RType) bool = valid(v) && (vtype(v) == t || (vtype(v) == ptrTo(t) && !visnil(v)))
 //@ iface dials.Source.Value(s, ctx, typ) (v, err)
 //@   flag record sourceValue
 //@   ensures err == nil ==> shaped(v, as(typ, "*dials.Type").t)
@@ -508,12 +568,6 @@ package dials
 //@   requires dials_type_nonnil: t != nil
 //@   ensures r == t.t
 
-//@ func dials.realDeepCopy(in) (out)
-//@   ensures in != nil ==> valid(out) && vtype(out) == typeOfDyn(dyn(in)) && canInterface(out)
-//@ extern func ptrify.Pointerify(t, v) (r)
-//@   pure
-//@ extern func reflect.(Value).Elem(v) (e)
-//@   pure
 
 //@ macro isWatcherSrc(s Iface) bool = s != nil && impl(s, "dials.Watcher")
 //@ func dials.(Params).Config(p, ctx, t, sources) (d, err)
@@ -522,16 +576,24 @@ package dials
 //@   flag record dialsConfig
 //@   requires ctx != nil
 //@   requires api_precondition_sources_nonnil: forall k int :: 0 <= k && k < len(sources) ==> sources[k] != nil
+//@   requires api_precondition_config_is_a_struct: kind(elem(typeOfDyn(tid("*T")))) == Struct && elem(typeOfDyn(tid("*T"))) != nil
+//@   requires api_precondition_defaults_nonnil: t != nil
 //@   modifies atomicval, hist, storetime, evclock, chcap, sent, recvd, closed, vlogLen, vlogCfg, vlogErr, vlogTime,
-//@            rec_compose, rec_sourceValue, rec_watch, ?sourcewrap.Blank.t, ?sourcewrap.Blank.wa, ?sourcewrap.Blank.watchCtx
+//@            rec_compose, rec_sourceValue, rec_watch, rec_realDeepCopy, rec_deepCopyValue, rec_overlayStruct,
+//@            ?sourcewrap.Blank.t, ?sourcewrap.Blank.wa, ?sourcewrap.Blank.watchCtx
 //@   loop 0:
 //@     invariant C05_C18_watchers_so_far_are_watched: forall k int :: 0 <= k && k < rangeidx && k < len(sources) && isWatcherSrc(sources[k]) ==>
 //@          (exists j int :: old(rec_watch_cnt) <= j && j < rec_watch_cnt && rec_watch_arg0[j] == sources[k]
 //@             && isType(rec_watch_arg3[j], "*dials.watchArgs") && fresh(pay(rec_watch_arg3[j])) && allocated(pay(rec_watch_arg3[j]))
 //@             && as(pay(rec_watch_arg3[j]), "*watchArgs").s == sources[k] && as(pay(rec_watch_arg3[j]), "*watchArgs").c == watcherChan)
 //@     invariant rec_watch_cnt >= old(rec_watch_cnt)
+//@     invariant C01_values_read_so_far_fit_the_config_type: forall k int :: 0 <= k && k < rangeidx && k < len(computed) ==>
+//@          layerFits(computed[k].value, elem(typeOfDyn(tid("*T"))))
+//@     invariant len(computed) == len(sources)
 //@     invariant C09_no_verify_while_reading_sources: vlogLen == old(vlogLen) && rec_compose_cnt == old(rec_compose_cnt)
 //@     invariant chanOpen(watcherChan)
+//@   at call ptrify.Pointerify:
+//@     assume rely_supported_config_type: c01Scope(arg0)
 //@   at call d.value.Store:
 //@     assume rely_fresh_history: forall v Ref :: !hist[&d.value][v]
 //@   ensures C05_C18_every_watcher_source_reports_as_itself: err == nil ==> (forall k int :: 0 <= k && k < len(sources) && isWatcherSrc(sources[k]) ==>
@@ -562,6 +624,7 @@ package dials
 //@ func dials.(*overlayer).overlayStruct(o, base, overlay) (err)
 //@   props C01
 //@   safety C16
+//@   flag record overlayStruct
 //@   requires o != nil && valid(base) && valid(overlay)
 //@   requires kind(vtype(base)) == Struct && kind(vtype(overlay)) == Struct
 //@   requires C01_overlay_is_pointerified_base: numField(vtype(overlay)) == retained(vtype(base), numField(vtype(base)))
